@@ -89,7 +89,86 @@ type File struct {
 	fs     *FS
 	name   string
 	closed bool
+	off    int  // write position
+	app    bool // O_APPEND
 }
+
+// The parts of package os that a plausible edit of the instrumented files may start to use.
+const (
+	O_RDONLY = os.O_RDONLY
+	O_WRONLY = os.O_WRONLY
+	O_RDWR   = os.O_RDWR
+	O_APPEND = os.O_APPEND
+	O_CREATE = os.O_CREATE
+	O_EXCL   = os.O_EXCL
+	O_SYNC   = os.O_SYNC
+	O_TRUNC  = os.O_TRUNC
+	ModePerm = os.ModePerm
+)
+
+type FileMode = os.FileMode
+
+var (
+	ErrNotExist = os.ErrNotExist
+	ErrExist    = os.ErrExist
+)
+
+// OpenFile honours O_CREATE, O_EXCL, O_TRUNC and O_APPEND; without O_TRUNC an existing file keeps its
+// content and is overwritten from offset 0 (as on a real disk).
+func OpenFile(name string, flag int, _ FileMode) (*File, error) {
+	f := Cur
+	d := f.decide("create", name, 0)
+	if d.Err != nil {
+		return nil, &fs.PathError{Op: "open", Path: name, Err: d.Err}
+	}
+	f.mu.Lock()
+	_, exists := f.files[name]
+	switch {
+	case !exists && flag&O_CREATE == 0:
+		f.mu.Unlock()
+		return nil, notExist("open", name)
+	case exists && flag&O_CREATE != 0 && flag&O_EXCL != 0:
+		f.mu.Unlock()
+		return nil, &fs.PathError{Op: "open", Path: name, Err: syscall.EEXIST}
+	case !exists || flag&O_TRUNC != 0:
+		f.files[name] = []byte{}
+	}
+	f.mu.Unlock()
+	if d.CrashAfter {
+		crashNow()
+	}
+	return &File{fs: f, name: name, app: flag&O_APPEND != 0}, nil
+}
+
+func WriteFile(name string, data []byte, perm FileMode) error {
+	fl, err := OpenFile(name, O_WRONLY|O_CREATE|O_TRUNC, perm)
+	if err != nil {
+		return err
+	}
+	_, err = fl.Write(data)
+	if cerr := fl.Close(); err == nil {
+		err = cerr
+	}
+	return err
+}
+
+func MkdirAll(string, FileMode) error { return nil }
+func Chmod(string, FileMode) error    { return nil }
+func IsExist(err error) bool           { return os.IsExist(err) }
+
+// Sync is a scheduling / fault point; the simulated disk has no volatile cache (process crashes only).
+func (fl *File) Sync() error {
+	d := fl.fs.decide("sync", fl.name, 0)
+	if d.CrashAfter {
+		crashNow()
+	}
+	if d.Err != nil {
+		return &fs.PathError{Op: "sync", Path: fl.name, Err: d.Err}
+	}
+	return nil
+}
+
+func (fl *File) WriteString(s string) (int, error) { return fl.Write([]byte(s)) }
 
 func Create(name string) (*File, error) {
 	f := Cur
@@ -121,7 +200,15 @@ func (fl *File) Write(b []byte) (int, error) {
 		}
 	}
 	fl.fs.mu.Lock()
-	fl.fs.files[fl.name] = append(fl.fs.files[fl.name], b[:n]...)
+	cur := fl.fs.files[fl.name]
+	if fl.app || fl.off > len(cur) {
+		fl.off = len(cur)
+	}
+	// overwrite from the write position, extend beyond the end
+	k := copy(cur[fl.off:], b[:n])
+	cur = append(cur, b[k:n]...)
+	fl.off += n
+	fl.fs.files[fl.name] = cur
 	fl.fs.mu.Unlock()
 	if d.CrashAfter {
 		crashNow()
